@@ -18,6 +18,59 @@ from .absmap import make_absmap_class, make_tablemap_class, ModelTable, eval_und
 from .matchlib import Cfg, make_matcher, concrete_thresholds, threshold_values
 
 
+CURRENT_ORDER = None     # listing-order environment of the matcher currently under execution (see install_values_all_stub)
+
+
+def make_order(eng, c, rec):
+    """Listing order chosen by the environment.  c.order: None (as given), or a set/list of tag prefixes to permute
+    ('edges', 'nodes', 'nbr', 'values_all').  Symbolic runs: one engine fork per choice, recorded in rec; concrete replays:
+    the recorded permutation."""
+    which = c.order
+    if not which:
+        return None
+
+    def order(lst, tag):
+        if not any(tag.startswith(w) for w in which) or len(lst) <= 1:
+            return lst
+        if tag not in rec or len(rec[tag]) != len(lst):
+            if eng is None:
+                return lst
+            rem, perm = list(range(len(lst))), []
+            while rem:
+                k = eng.choose(len(rem), tag="order")
+                perm.append(rem.pop(k))
+            rec[tag] = perm
+        return [lst[i] for i in rec[tag]]
+    return order
+
+
+def install_values_all_stub():
+    """Environment stub for hash-order: LatticeColumn.values_all returns its entries in the order chosen by the
+    listing-order environment (identity = sorted by key)."""
+    from leuvenmapmatching.matcher.base import LatticeColumn
+    if getattr(LatticeColumn.values_all, '_verif_stub', False):
+        return
+
+    def values_all(self):
+        vals = []
+        for o in self.o:
+            vals.extend(o.values())
+        vals.sort(key=lambda m: repr(m.key))
+        if CURRENT_ORDER is not None:
+            vals = CURRENT_ORDER(vals, f"values_all:{self.obs_idx}")
+        return vals
+    values_all._verif_stub = True
+    LatticeColumn._orig_values_all = LatticeColumn.values_all
+    LatticeColumn.values_all = values_all
+
+
+def uninstall_values_all_stub():
+    from leuvenmapmatching.matcher.base import LatticeColumn
+    if hasattr(LatticeColumn, '_orig_values_all'):
+        LatticeColumn.values_all = LatticeColumn._orig_values_all
+        del LatticeColumn._orig_values_all
+
+
 def apply_ops(factory, ops, unique=False, hook=None):
     """Run the operation script; `factory(overrides)` builds a fresh (map, matcher).  Returns (results, path, mp, mt).
 
@@ -70,7 +123,7 @@ def apply_ops(factory, ops, unique=False, hook=None):
 
 
 def run(inst, claims_fn, witness_fn=None, engine=None, timeout_ms=10000, split_depth=None, exc_is_violation=True,
-        hook_fn=None, order_fn=lambda eng, cfg, rec=None: None):
+        hook_fn=None):
     """inst = (name, graph, cfg_kw, ops, opts[, budget[, mode[, prefix]]]).  Returns the runner.explore dict (or a
     split dict)."""
     name, g, kw, ops, opts = inst[:5]
@@ -90,12 +143,21 @@ def run(inst, claims_fn, witness_fn=None, engine=None, timeout_ms=10000, split_d
     def scenario():
         eng = E.get_engine()
 
+        orders = []
+
         def factory(over):
+            global CURRENT_ORDER
             c = cfg_with(over)
-            mp = AbsMap(g, linked=c.linked, self_listed=c.self_listed, order=order_fn(eng, c))
+            rec = {}
+            orders.append(rec)
+            CURRENT_ORDER = make_order(eng, c, rec)
+            mp = AbsMap(g, linked=c.linked, self_listed=c.self_listed, order=CURRENT_ORDER)
             return mp, make_matcher(eng, mp, c)
-        res, path, mp, mt = apply_ops(factory, ops, unique=unique, hook=hook_fn)
-        return dict(mp=mp, mt=mt, path=path, results=res, cfg=cfg, ops=ops, opts=opts, g=g)
+        try:
+            res, path, mp, mt = apply_ops(factory, ops, unique=unique, hook=hook_fn)
+        finally:
+            globals()['CURRENT_ORDER'] = None
+        return dict(mp=mp, mt=mt, path=path, results=res, cfg=cfg, ops=ops, opts=opts, g=g, orders=orders)
 
     def claims(eng, v):
         out = []
@@ -105,19 +167,30 @@ def run(inst, claims_fn, witness_fn=None, engine=None, timeout_ms=10000, split_d
 
     def concrete_ctx(table, thr):
         with shims.concrete():
+            recs = list(thr.get('__orders__') or [])
+            gen = [0]
+
             def factory(over):
+                global CURRENT_ORDER
                 c = cfg_with(over)
-                mp = TableMap(g, table, linked=c.linked, self_listed=c.self_listed, default=0.0,
-                              order=order_fn(None, c, thr.get('__orders__')))
+                rec = {k: list(v) for k, v in (recs[gen[0]] if gen[0] < len(recs) else {}).items()}
+                gen[0] += 1
+                CURRENT_ORDER = make_order(None, c, rec)
+                mp = TableMap(g, table, linked=c.linked, self_listed=c.self_listed, default=0.0, order=CURRENT_ORDER)
                 mt = make_matcher(None, mp, c)
                 concrete_thresholds(mt, c, thr)
                 return mp, mt
-            res, path, mp, mt = apply_ops(factory, ops, unique=unique, hook=hook_fn)
+            try:
+                res, path, mp, mt = apply_ops(factory, ops, unique=unique, hook=hook_fn)
+            finally:
+                globals()['CURRENT_ORDER'] = None
             return dict(mp=mp, mt=mt, path=path, results=res, cfg=cfg, ops=ops, opts=opts, g=g)
 
     def confirm(eng, model, v, cname):
         table = ModelTable(model)
         thr = threshold_values(model, cfg)
+        if any(v.get('orders', [])):
+            thr['__orders__'] = [{k: list(p) for k, p in rec.items()} for rec in v['orders']]
         return confirm_on_table(table, thr)
 
     def confirm_on_table(table, thr):
